@@ -3,11 +3,21 @@ from gen.pairings import HAIRPIN, concat, pairings_upto, random_structure, stems
 from oracles import common_o as O
 from props._util import rng_for, run_cases
 from props.C01 import knotted
+import os
 
 LEVEL = "other"
+EXTRA_KIND = "Lean 4 + Mathlib lemmas (lean/Pigeonhole.lean; checked in the thorough tier, cached result reported in the quick tier)"
 DEDUCTIVE = [{"module": "rnapolis.common", "sidecar": "contracts.common_milp_c",
               "targets": ["BpSeq.convert_to_dot_bracket@model", "BpSeq.dot_bracket@model",
-                          "lemma:esum_witness", "lemma:esum_nonneg", "lemma:esum_zero", "lemma:esum_atmost"]}]
+                          "lemma:esum_witness", "lemma:esum_nonneg", "lemma:esum_zero", "lemma:esum_atmost"]},
+             # spec-level lemmas behind the optimality clause (no code involved): contracts/poa_lemmas_c.py
+             {"module": "rnapolis.common", "sidecar": "contracts.poa_lemmas_c",
+              "targets": ["lemma:conflict_graph_is_simple", "lemma:coef_is_term", "lemma:term_lower_level_is_better",
+                          "lemma:sum_after_move", "lemma:exchange", "lemma:not_improvable_is_stable_at",
+                          "lemma:stable_level_fits_under_bound", "lemma:stable_levels_fit_under_bound",
+                          "lemma:fcfs_levels_are_proper_and_greedy_stable", "lemma:greedy_stable_is_stable",
+                          "lemma:fcfs_is_a_competitor", "lemma:optimum_not_worse_than_fcfs",
+                          "lemma:one_hot_row_collapses", "lemma:one_hot_matrix_objective"]}]
 TRUSTED = ["z3 5.1.0 / cvc5 1.0.3", "pyvc encoding of Python semantics (DESIGN 2.3)", "CPython 3.12",
            "the pulp model of contracts/common_milp_c.py (EXTERNALS; listed item by item in props/C13.py TRUSTED): solver objects, "
            "LpProblem / LpVariable construction, the free term algebra of affine expressions and constraints, LpProblem.__iadd__, "
@@ -16,19 +26,30 @@ TRUSTED = ["z3 5.1.0 / cvc5 1.0.3", "pyvc encoding of Python semantics (DESIGN 2
            "integer within its bounds and every constraint that was added holds",
            "pulp + CBC/HiGHS return an OPTIMUM of the model they are given (external binary) - not used by any proof here, see "
            "ASSUMPTIONS / EXPLANATION",
-           "callee contracts proved under C01 (contracts/common_c.py): BpSeq.__regions, BpSeq.__make_dot_bracket, BpSeq.fcfs"]
+           "callee contracts proved under C01 (contracts/common_c.py): BpSeq.__regions, BpSeq.__make_dot_bracket, BpSeq.fcfs",
+           "Lean 4.33.0 (kernel) + Mathlib v4.33.0 as installed under /opt/veriftools (lean/Pigeonhole.lean; run offline as plain "
+           "`lean` with LEAN_PATH set to the compiled Mathlib - no lake, no network); the theorems depend on the standard axioms "
+           "propext, Classical.choice, Quot.sound only (checked from the `#print axioms` output)",
+           "the reading of the Lean statements (finite graph on Fin n, levels in Nat, lengths in Int) as statements about the "
+           "stems R, cross, the levels O, card(G[a]) and max_order of the contract: dictionary in lean/README.md, by inspection"]
 ASSUMPTIONS = [
     "levels30(self), degree30(self) (see props/C13.py): the contract covers structures in which no stem crosses more than 29 others",
     "esum_definition, numeral_definition(_all), degree30_definition, times_definition (times(x, y) == x * y: the product in the "
     "objective coefficients is kept uninterpreted inside quantified invariants) (definitions); split3, int_str_roundtrip (assumed facts about "
     "str.split / int() / str()); len.set (set cardinality as an uninterpreted non-negative function): as in props/C13.py",
-    "NOT PROVED (mathematical step, stated here as an explicit assumption of the property's optimality clause): "
-    "L-enc: every proper assignment O' with levels < max_order is a feasible 0/1 point of the model whose objective value is "
-    "sum_a (len_a if O'[a] == 0 else -O'[a] * len_a), and the read-back of a feasible point has that objective value "
-    "(a double-sum rearrangement over the term list, the term list being characterised by obligation model-4-objective)",
-    "NOT PROVED: L-bound: levels >= max degree + 1 never help (an optimal proper assignment over all levels uses only levels "
-    "<= its vertex degree), so that 'maximal among proper assignments with levels < max_order' is 'maximal among all proper "
-    "assignments'",
+    "pigeonhole_level_le_degree (contracts/poa_lemmas_c.py, kind 'lean'): the counting step '0 <= a < len(R), G[a] = the set of stems "
+    "crossing a, O greedy-stable => O[a] <= card(G[a])' is IMPORTED into the SMT lemmas stable_level(s)_fit_under_bound, "
+    "fcfs_is_a_competitor, optimum_not_worse_than_fcfs from Lean (theorem level_le_degree of lean/Pigeonhole.lean, checked in the "
+    "thorough tier; the quick tier reports it only from the cache of a thorough run on the same file). ASSUMED with the import: the SMT "
+    "model's uninterpreted set cardinality card / len.set is the number of elements (Finset.card) of the finite set G[a]",
+    "the Lean theorems are statements about an abstract finite graph; that they speak about the contract's ghost results (R, O, G, "
+    "max_order) is the reading documented in lean/README.md - not machine-checked (listed in TRUSTED)",
+    "NOT PROVED (composition): no contract clause states 'the assignment read back maximises the objective': the pulp model carries "
+    "no optimality fact, so the chain [T-solver optimality (assumed, next item)] + [every proper assignment with levels < max_order "
+    "is a feasible 0/1 point: one_hot_feasible] + [objective of a one-hot point == objective of the assignment it encodes: "
+    "term_list_objective / one_hot_matrix_objective, over the term list characterised by obligation model-4-objective and the "
+    "read-back characterised by model-6-read-back] + [best among levels < max degree + 1 => best among all proper assignments: "
+    "restricted_optimum_is_global] is assembled in EXPLANATION from machine-checked links, not by the engine",
     "NOT PROVED: T-solver, optimality part (the reported valuation maximises the objective among feasible valuations)",
 ]
 EXPLANATION = (
@@ -45,10 +66,148 @@ EXPLANATION = (
     "0/1 sums, proved by induction). ENSURES: on the MILP exit and on the empty-graph exit the result is the painting of the "
     "stems R with a level assignment O that is PROPER (crossing stems never share a level, levels < 30) - ghost results R, O, G; "
     "the MILP is set up only when two stems cross and otherwise every stem is on level 0 (pseudoknot-free => only round "
-    "brackets). NOT DECIDED deductively: that the assignment MAXIMISES the objective (needs the solver's optimality, L-enc and "
-    "L-bound: listed as unproved assumptions) and the corollaries 'no stem could be moved lower' / 'never worse than FCFS' - "
-    "these stay with the bounded oracles (brute-force optimum on all pairings N <= 7/9 and random knotted structures)."
+    "brackets). NOT DECIDED deductively on the code: that the assignment MAXIMISES the objective (needs the solver's optimality - "
+    "an unproved assumption - composed with the lemmas L-enc and L-bound, which are proved at the level of the specification, see "
+    "below and ASSUMPTIONS) and with it the corollaries 'no stem could be moved lower' / 'never worse than FCFS' - "
+    "on the real function these stay with the bounded oracles (brute-force optimum on all pairings N <= 7/9 and random knotted structures). "
+    "LEMMAS BEHIND THE OPTIMALITY CLAUSE (spec level, no code; contracts/poa_lemmas_c.py by SMT, lean/Pigeonhole.lean by Lean 4 + "
+    "Mathlib; former assumptions L-exch / L-bound / L-enc are now proved, what is left is listed in ASSUMPTIONS). Objects: stems R "
+    "with conflict graph cross(R, a, b) (symmetric, irreflexive: conflict_graph_is_simple) and lengths R[a][2] >= 1; objective of a "
+    "level assignment O = S[len(R)] for the list S of running sums of term(len_a, O[a]) (a lemma parameter constrained by its "
+    "recurrence - no uninterpreted sum, no axiom); term == the MILP coefficient (coef_is_term, with times_definition). "
+    "L-exch: term_lower_level_is_better (0 <= k < l, len >= 1 => term(len, k) > term(len, l)), sum_after_move (objective of O[a := k] "
+    "== objective of O - term(len_a, O[a]) + term(len_a, k), induction over the index), exchange (O proper, k < O[a], no stem crossing "
+    "a on level k => O[a := k] proper with a strictly larger objective); not_improvable_is_stable_at: an O that is not beaten by its "
+    "one-move competitor O[a := k] has a crossing stem on level k, for every a and k < O[a] - optimality enters as this first-order "
+    "instance, so an optimum is greedy-stable ('no stem could be moved to a lower level'). L-bound: stable_level(s)_fit_under_bound: "
+    "greedy-stable levels are < max_order = max degree + 1 (degree_bound is the clause proved as model-2-level-bound); the counting "
+    "step inside (a stem on level l has l crossing stems on the l levels below, so l <= degree) is done in Lean "
+    "(levels_below_attained_le_card over Finset, level_le_degree, level_lt_bound) and imported as pigeonhole_level_le_degree. "
+    "FCFS: fcfs_is_a_competitor (the FCFS levels - FC_def, proper and greedy-stable by fcfs_levels_are_proper_and_greedy_stable, "
+    "re-proved here - are proper and < max_order: a feasible competitor of the MILP), optimum_not_worse_than_fcfs (optimality "
+    "instantiated at FCFS: objective(O) >= objective(FCFS)). L-enc, matrix form: one_hot_row_collapses / one_hot_matrix_objective "
+    "(x[a][j] in {0,1}, x[a][j] == 1 iff j == O[a] => sum_a sum_j C[a][j] * x[a][j] == sum_a C[a][O[a]]; induction over columns, "
+    "then rows). ONLY IN LEAN (second-order statements, quantifying over all assignments): exchange and its iteration "
+    "(exists_greedy_stable_improvement, induction on the sum of the levels), restricted_optimum_is_global (best among proper "
+    "assignments with levels < max degree + 1 => best among ALL proper assignments: restricting the MILP to max_order levels loses "
+    "no optimum), optimal_is_greedy_stable / restricted_optimum_is_greedy_stable, never_worse_than (any proper F, e.g. FCFS), "
+    "term_list_objective (the objective as ONE sum over the term list, any order, one monomial per cell) and one_hot_feasible (the "
+    "0/1 matrix of a proper assignment with levels < max_order satisfies the MILP's constraints). The Lean file is checked by the "
+    "THOROUGH tier only (target lean:Pigeonhole, one obligation per theorem; accepted iff lean exits 0 without error/sorry and "
+    "every theorem depends on the standard axioms only); the quick tier does not run Lean: it reports lean:Pigeonhole from the cache "
+    "of a thorough run on the identical file (/verif/.cache/lean/<sha256>.json) and omits the record when there is none. A Lean "
+    "that cannot be started (missing binary / Mathlib, timeout, import failure) gives NOT-ESTABLISHED, never a violation. Self-test "
+    "(run once, not registered): false siblings - term with len = 0, exchange towards a higher level or onto a used level, the sum "
+    "update off by one, stability without the optimality hypothesis, a row with several ones, reflexive crossing - are refuted with "
+    "counter-models (bound max degree instead of max degree + 1 and optimality over fewer levels: not provable, solver gives up); "
+    "in Lean 'l < card' instead of 'l <= card', len = 0 and the upward exchange fail to compile and their negations are proved."
 )
+
+
+_LEAN_FILE = "/verif/lean/Pigeonhole.lean"
+_LEAN_CACHE = "/verif/.cache/lean"
+_LEAN_BACKEND = "lean-4.33.0+mathlib"
+_MATHLIB_LAKE = "/opt/veriftools/mathlib4/.lake"
+_LEAN_THEOREMS = ["levels_below_attained_le_card", "levels_below_attained_le_card_int", "level_le_degree", "level_lt_bound",
+                  "term_strict_anti", "exchange", "restricted_optimum_is_global", "optimal_is_greedy_stable",
+                  "restricted_optimum_is_greedy_stable", "never_worse_than", "one_hot_double_sum", "term_list_objective",
+                  "one_hot_feasible"]
+_STD_AXIOMS = {"propext", "Classical.choice", "Quot.sound"}
+
+
+def _lean_check(path, timeout_s=1800):
+    """run `lean <path>` offline (plain lean, LEAN_PATH = the compiled Mathlib and its packages; no lake, no network).
+    -> ("accepted" | "rejected" | "unavailable", detail, {theorem: (ok, reason)}, ms).  "unavailable" = Lean could not be
+    started or could not load Mathlib: an error of the checking environment, never a verdict about the file."""
+    import glob, re, shutil, subprocess, time
+    t0 = time.time()
+    ms = lambda: int((time.time() - t0) * 1000)
+    exe = shutil.which("lean") or "/opt/veriftools/lean/bin/lean"
+    dirs = [d for d in [_MATHLIB_LAKE + "/build/lib/lean"] + sorted(glob.glob(_MATHLIB_LAKE + "/packages/*/.lake/build/lib/lean"))
+            if os.path.isdir(d)]
+    if not os.path.exists(exe) or not dirs or not os.path.exists(dirs[0] + "/Mathlib.olean"):
+        return "unavailable", f"lean binary or compiled Mathlib not found ({exe}, {_MATHLIB_LAKE})", {}, ms()
+    env = {k: v for k, v in os.environ.items() if not k.lower().endswith("_proxy")}
+    env["LEAN_PATH"] = ":".join(dirs)
+    try:
+        p = subprocess.run([exe, path], capture_output=True, text=True, timeout=timeout_s, env=env, cwd=os.path.dirname(path))
+    except (OSError, subprocess.TimeoutExpired) as e:
+        return "unavailable", f"lean could not be run: {type(e).__name__}: {e}"[:300], {}, ms()
+    out = p.stdout + "\n" + p.stderr
+    src = open(path).read().splitlines()
+    import_line = max([k + 1 for k, l in enumerate(src) if l.startswith("import ")] or [0])
+    errors = [(int(m.group(1)), m.group(2)) for m in re.finditer(r"^[^\n:]*:(\d+):\d+: error: ([^\n]*)", out, re.M)]
+    if any(ln <= import_line for ln, _ in errors) or (p.returncode != 0 and not errors):
+        # the imports did not load / lean crashed without a diagnostic about the file's own text
+        return "unavailable", ("lean could not load its imports or crashed: " + (errors[0][1] if errors else out.strip()[:200]))[:300], {}, ms()
+    # line range of every theorem: from its `theorem <name>` line to the line before the next top-level declaration
+    starts = [(k + 1, re.match(r"(?:theorem|def|lemma)\s+(\S+)", l).group(1)) for k, l in enumerate(src) if re.match(r"(?:theorem|def|lemma)\s+\S+", l)]
+    span = {n: (ln, (starts[i + 1][0] - 1 if i + 1 < len(starts) else len(src))) for i, (ln, n) in enumerate(starts)}
+    axioms = {m.group(1): {x.strip() for x in m.group(2).split(",") if x.strip()}
+              for m in re.finditer(r"'Pigeonhole\.(\w+)' depends on axioms: \[([^\]]*)\]", out)}
+    axioms.update({m.group(1): set() for m in re.finditer(r"'Pigeonhole\.(\w+)' does not depend on any axioms", out)})
+    per = {}
+    for th in _LEAN_THEOREMS:
+        lo, hi = span.get(th, (0, -1))
+        errs = [msg for ln, msg in errors if lo <= ln <= hi]
+        if th not in span:
+            per[th] = (False, "theorem not found in the file")
+        elif errs:
+            per[th] = (False, "lean error: " + errs[0][:200])
+        elif th not in axioms:
+            per[th] = (False, "no `#print axioms` output for this theorem")
+        elif axioms[th] - _STD_AXIOMS:
+            per[th] = (False, "depends on non-standard axioms: " + ", ".join(sorted(axioms[th] - _STD_AXIOMS)))
+        else:
+            per[th] = (True, "")
+    clean = p.returncode == 0 and not errors and "sorry" not in out
+    if clean and all(ok for ok, _ in per.values()):
+        return "accepted", "", per, ms()
+    if all(ok for ok, _ in per.values()):  # an error outside the listed theorems, or a `sorry` somewhere: nothing is accepted
+        why = errors[0][1] if errors else ("`sorry` in the output" if "sorry" in out else f"exit code {p.returncode}")
+        per = {th: (False, "the file as a whole is not accepted: " + why[:200]) for th in per}
+    return "rejected", "", per, ms()
+
+
+def deductive_extra(tier, seed):
+    """the Lean part of the optimality lemmas (lean/Pigeonhole.lean).  thorough: run Lean (offline) and cache an accepted
+    result by the file's hash; quick: never run Lean - report the cached result of the identical file if there is one,
+    otherwise no record at all (see EXPLANATION)."""
+    import hashlib, json
+    try:
+        digest = hashlib.sha256(open(_LEAN_FILE, "rb").read()).hexdigest()
+    except OSError as e:
+        return [{"target": "lean:Pigeonhole", "module": "lean", "status": "not-established", "obligations": [], "kind": "lean",
+                 "reason": f"checker error: {_LEAN_FILE} cannot be read ({e})"}]
+    cache = os.path.join(_LEAN_CACHE, digest + ".json")
+
+    def record(per, ms, backend):
+        obls = [{"name": f"lean:Pigeonhole#{th}", "kind": "lemma", "result": "unsat" if ok else "sat", "backend": backend,
+                 "ms": ms // max(1, len(per)), "model": None, "reason": why, "line": None} for th, (ok, why) in per.items()]
+        return {"target": "lean:Pigeonhole", "module": "lean", "status": "proved" if all(ok for ok, _ in per.values()) else "failed",
+                "obligations": obls, "kind": "lean", "reason": "", "source_hash": digest[:16]}
+
+    if tier != "thorough":
+        try:
+            c = json.load(open(cache))
+            if c.get("sha256") == digest and c.get("state") == "accepted" and sorted(c.get("theorems", [])) == sorted(_LEAN_THEOREMS):
+                return [record({th: (True, "") for th in _LEAN_THEOREMS}, c.get("ms", 0),
+                               _LEAN_BACKEND + f" (cached result of the thorough tier for file hash {digest[:16]})")]
+        except (OSError, ValueError):
+            pass
+        return []
+    state, detail, per, ms = _lean_check(_LEAN_FILE)
+    if state == "unavailable":
+        return [{"target": "lean:Pigeonhole", "module": "lean", "status": "not-established", "obligations": [], "kind": "lean",
+                 "reason": "checker error, no verdict: " + detail}]
+    if state == "accepted":
+        try:
+            os.makedirs(_LEAN_CACHE, exist_ok=True)
+            with open(cache, "w") as f:
+                json.dump({"sha256": digest, "state": "accepted", "theorems": _LEAN_THEOREMS, "ms": ms, "backend": _LEAN_BACKEND}, f, indent=1)
+        except OSError:
+            pass
+    return [record(per, ms, _LEAN_BACKEND)]
 
 
 def bounded(tier, seed):
